@@ -51,7 +51,12 @@ def _case(draw):
                                           st.integers(0, 3000))),
             # 1 case in 25: the same commands again, each in a real fresh process (validates the
             # in-process emulation of process boundaries)
-            "subproc": draw(st.integers(0, 24)) == 0}
+            "subproc": draw(st.integers(0, 24)) == 0,
+            # 1 case in 5: some blank lines carry a control character outside the lexer's alphabet (^L page
+            # breaks, VT, FS/GS/RS).  zorg drops such characters, so the line still is a blank line and the page
+            # still is error-free; Python's str.splitlines() would break lines there, "\n".split does not.
+            "ctrl": draw(st.lists(st.tuples(st.integers(0, 40), st.sampled_from(["\x0c", "\x0c", "\x0b", "\x1c", "\x1d", "\x1e"])),
+                                  min_size=1, max_size=3)) if draw(st.integers(0, 4)) == 0 else []}
 
 
 def agreement(zdir: Path, rels, what: str) -> list:
@@ -98,6 +103,19 @@ def check(case, rec: Rec) -> None:
         if any(P.independent_parse(text)[:2]):
             raise InvalidCase("page does not parse cleanly")
         files[rel], exps[rel] = text, (exp, pg, stats)
+    if case.get("ctrl"):
+        rels = sorted(files)
+        planted = 0
+        for sel, ch in case["ctrl"]:
+            rel = rels[sel % len(rels)]
+            lines = files[rel].split("\n")
+            blanks = [i for i, ln in enumerate(lines[:-1]) if ln == ""]
+            if blanks:
+                lines[blanks[sel % len(blanks)]] = ch
+                files[rel] = "\n".join(lines)
+                planted += 1
+        if planted:
+            rec.label("control-character-on-a-blank-line")
     with env.sandbox("vz-c05-") as box, env.frozen(today):
         zdir = box / "org"
         zdir.mkdir()
